@@ -459,6 +459,7 @@ def _collect_binding_information_simple_literal(
                     len(variables) == 1
                     and not has_unsafe_operation(arg)
                     or len(collect_ast(arg, "BinaryOperation")) + len(collect_ast(arg, "UnaryOperation")) == 0
+                    and not collect_ast(arg, "Interval")
                 ):
                     bound_variables.update(variables)
                 else:
